@@ -123,7 +123,7 @@ PLAN = {
                 rule="end-to-end: one evaluation = one execution of a timer program under one schedule on virtual clocks; structural: one evaluation = one operation sequence on the real double heap "
                      "checked against a sorted-multiset model (count, both minima, back-pointers, heap order in both interleaved heaps)"),
     "C17": _qplan("the last application release of a queue / source / group / semaphore / data object racing with pending or running items, suspend-resume, a queue targeting it, "
-                  "notify, an item that re-submits, an item that itself drops the last reference",
+                  "notify, an item that re-submits, an item that itself drops the last reference, a block object waited on while it completes",
                   "k<=3 for the single-thread scenarios, k<=2 for the two-thread ones", "k<=4 / k<=3"),
     "C19": _qplan("one block object: submit (async / sync / group_async / direct call / dispatch_block_perform) racing cancel, wait (forever, 1 ms), notify and testcancel from 2-3 threads, "
                   "flags 0 / BARRIER on a concurrent queue / QoS flags",
@@ -289,7 +289,7 @@ def tasks_for(pid, tier):
         return ds("cancel", 2, [v for v in allv if v not in small], jobs=8) + ds("cancel", 3, small, jobs=8)
     if pid == "C17":
         tiny = [0, 4, 6, 7, 9, 10, 11]
-        rest = [1, 2, 3, 5, 8, 12]
+        rest = [1, 2, 3, 5, 8, 12, 13, 14]     # 13/14: block object + dispatch_block_wait (who consumes the queue's references)
         return ds("life", 3 if q else 4, tiny, jobs=4) + ds("life", 2 if q else 3, rest, jobs=8)
     if pid == "C19":
         small = [0, 1, 4, 5, 7, 8, 10, 11, 12, 14, 18, 20, 21, 22, 23, 24]
